@@ -21,4 +21,5 @@ import ZwVerif.Props.C16
 import ZwVerif.Props.C17
 import ZwVerif.Props.C18
 import ZwVerif.Props.C19
+import ZwVerif.Props.C19Order
 import ZwVerif.Props.C20
